@@ -179,6 +179,21 @@ pub fn one(cfg: &Cfg, res: &mut ShardResult, prop: &str) {
         *log.reenter.lock() = None;
         return;
     }
+    // C05 at a quiescent point: usage() / entries() equal what lookups can still find
+    let mut acct_problem = None;
+    {
+        let found: Vec<(u64, u64, usize)> = (0..cfg.keys).filter_map(|k| cache.get(&k).map(|e| (k, e.value().id, e.weight()))).collect();
+        let sum: usize = found.iter().map(|f| f.2).sum();
+        if cache.usage() != sum || cache.entries() != found.len() {
+            acct_problem = Some(format!(
+                "after all threads joined and every handle was dropped: usage() = {}, entries() = {}, but lookups find {} entries of total weight {sum}: {found:?}",
+                cache.usage(),
+                cache.entries(),
+                found.len()
+            ));
+        }
+        res.count("mt_quiescent_accounting_checks", 1);
+    }
     // C18 leak clause: no handle is outstanding now
     // (single shard only: with several shards the insert restores the bound of one shard, and an entry of weight 2
     // may legitimately exceed a shard whose share of the capacity is 0 or 1)
@@ -194,7 +209,7 @@ pub fn one(cfg: &Cfg, res: &mut ShardResult, prop: &str) {
             let found: Vec<(u64, u64, usize)> = (0..cfg.keys).filter_map(|k| cache.get(&k).map(|e| (k, e.value().id, e.weight()))).collect();
             eprintln!("usage {} entries {} capacity {} findable {:?} sum {}", cache.usage(), cache.entries(), cap_now, found, found.iter().map(|f| f.2).sum::<usize>());
         }
-        if cache.usage() > cap_now {
+        if cache.usage() > cap_now && prop == "C18" {
             res.violate(
                 format!("{prop}:mt:usage-above-capacity-with-no-handles:{:?}", cfg.algo.algo),
                 format!("all handles dropped, one more fitting insert: usage {} > capacity {}", cache.usage(), cap_now),
@@ -292,7 +307,16 @@ pub fn one(cfg: &Cfg, res: &mut ShardResult, prop: &str) {
                 "first_leave_events": leaves.iter().take(10).collect::<Vec<_>>()}));
         }
     }
-    for (sig, detail) in problems.into_iter().take(2) {
+    if let Some(d) = acct_problem {
+        problems.push(("acct:usage-mismatch-at-quiescent-point".into(), d));
+    }
+    // each property reports its own clauses
+    let relevant = |sig: &str| match prop {
+        "C05" => sig.starts_with("acct"),
+        "C18" => sig.starts_with("handle-changed") || sig.starts_with("foreign-entry"),
+        _ => !sig.starts_with("acct") && !sig.starts_with("handle-changed") && !sig.starts_with("foreign-entry"),
+    };
+    for (sig, detail) in problems.into_iter().filter(|p| relevant(&p.0)).take(2) {
         res.violate(format!("{prop}:mt:{sig}:{:?}", cfg.algo.algo), detail, replay.clone());
     }
 }
